@@ -58,6 +58,7 @@ type Cfg struct {
 	Scout     bool
 	KeepAll   bool
 	Honest    bool // honest proposer only: nothing is forced into a block past admission
+	Gossip    bool // replicas run the mempool check on every submitted transaction before each block
 	Byzantine int  // percent of the transactions the mempool check refuses that are put into blocks anyway
 	// Schedule knobs
 	Jumps   bool // occasionally jump block time across cycle/year boundaries
@@ -101,6 +102,7 @@ func Run(cfg Cfg) *Result {
 	}
 	r.KeepAll = cfg.KeepAll
 	r.ByzPct = cfg.Byzantine
+	r.Gossip = cfg.Gossip
 	res.R = r
 	if cfg.Setup != nil {
 		if err := cfg.Setup(r); err != nil {
